@@ -37,7 +37,10 @@ TraceNext ==
     /\ LET r == Rec[i] IN
        \/ r.ev = "Init" /\ bank' = [l \in Slots |-> Fresh] /\ UNCHANGED vars
        \/ r.ev = "New" /\ bank' = [bank EXCEPT ![r.l] = Fresh] /\ UNCHANGED vars
-       \/ r.ev = "Tick" /\ TickOf(r)
+       \/ /\ r.ev = "Tick"
+          \* what the controller reports is well formed: one of its five states, every number finite
+          /\ r.st \in {"Bootstrap", "Climbing", "Holding", "BackingOff", "Drain"} /\ r.finite
+          /\ TickOf(r)
 
 TraceSpec == TraceInit /\ [][TraceNext]_<<vars, i, bank>>
 
